@@ -25,4 +25,6 @@ def run(ctx):
     rep.disagreements_checked = rep.counts.get('R06.b', 0)
     rep.floor('R06.c', 25)
     rep.floor('R06.b', 15)
+    import gen_proto
+    gen_proto.check(rep, ('G06.a',))
     return rep
